@@ -75,21 +75,21 @@ def runBuffet (c : CaseIn) (L : Nat) (cfgs : List BindCfg) (cap : Option Nat) (s
   let g := buffetRun L (cfgs.map (·.evictEnd)) c.ls cap traces
   (trafficTable c cfgs (fun i => (g.bs.getD i {}).reads) (fun i => (g.bs.getD i {}).writes), g.over)
 
-def specBuffet (c : CaseIn) (cfgs : List BindCfg) : List (String × Bool × Nat) :=
-  let traces := cfgs.map (·.accs false)
+def specBuffet (c : CaseIn) (cfgs : List BindCfg) (stale : Bool) : List (String × Bool × Nat) :=
+  let traces := cfgs.map (·.accs stale)
   trafficTable c cfgs
     (fun i => c.ls * fillsSpec ((cfgs.map (·.evictEnd)).getD i 0) (traces.getD i []))
     (fun i => c.ls * writebacksSpec ((cfgs.map (·.evictEnd)).getD i 0) (traces.getD i []))
 
 def runCache (c : CaseIn) (L : Nat) (cfgs : List BindCfg) (cap : Option Nat) (stale : Bool) :
-    Option String × List (String × Bool × Nat) × Nat :=
+    Option String × List (String × Bool × Nat) × Nat × Bool :=
   let traces := cfgs.map (·.accs stale)
   let s := cacheRun L c.ls cap traces
-  (s.failed, trafficTable c cfgs (getAt s.reads) (getAt s.writes), s.over)
+  (s.failed, trafficTable c cfgs (getAt s.reads) (getAt s.writes), s.over, s.wrongPop)
 
-def specCache (c : CaseIn) (L : Nat) (cfgs : List BindCfg) (cap : Option Nat) :
+def specCache (c : CaseIn) (L : Nat) (cfgs : List BindCfg) (cap : Option Nat) (stale : Bool) :
     List (String × Bool × Nat) :=
-  let traces := cfgs.map (·.accs false)
+  let traces := cfgs.map (·.accs stale)
   let s := refCache c.ls cap {} (schedule L traces)
   trafficTable c cfgs (getAt s.reads) (getAt s.writes)
 
@@ -132,6 +132,7 @@ def handle (j : Json) (cache : Bool) : Except String Verdict := do
     if cfgs.any (fun b => b.evictEnd > 0) then tags := tags ++ ["evict-rank"]
     if !cache && cfgs.any (fun b => b.evictEnd = 0) then tags := tags ++ ["evict-root"]
     if c.loopRanks.length > 0 then tags := tags ++ ["loop-ranks"]
+    if accsT.any (fun t => t.any (·.next.isSome)) then tags := tags ++ ["reuse"]
     let sched := schedule L accsT
     let tie := !tieFreeB sched
     if tie then tags := tags ++ ["stamp-tie"]
@@ -139,14 +140,22 @@ def handle (j : Json) (cache : Bool) : Except String Verdict := do
     if !accsT.all (fun t => stampsSortedB (t.map (·.stamp))) then tags := tags ++ ["unsorted-stamps"]
     let mut prevReads : Option Nat := none
     let mut first : Option Run := none
+    let mut inWorld := true         -- model(code's shapes) = reference(code's shapes) for every capacity
+    let mut staleMatters := false   -- reference(code's shapes) ≠ reference(true shapes) somewhere
+    let mut wrongPop := false
     for (cap, run) in caps.zip runs do
-      let (merr, mtab, mover, stab) :=
-        if cache then
-          let (e, t, o) := runCache c L cfgs cap true
-          (e, t, o, specCache c L cfgs cap)
+      -- the model, run with the shapes the code computes
+      let (merr, mtab, mover, mwp) : Option String × List (String × Bool × Nat) × Nat × Bool :=
+        if cache then runCache c L cfgs cap true
         else
           let (t, o) := runBuffet c L cfgs cap true
-          (none, t, o, specBuffet c cfgs)
+          (none, t, o, false)
+      -- the specification evaluated on the same (possibly wrong) shapes, and on the true ones
+      let rS := if cache then specCache c L cfgs cap true else specBuffet c cfgs true
+      let stab := if cache then specCache c L cfgs cap false else specBuffet c cfgs false
+      if mwp then wrongPop := true
+      if merr.isSome || !sameTable mtab rS then inWorld := false
+      if !sameTable rS stab then staleMatters := true
       models := models ++ [Json.mkObj [("cap", match cap with | none => Json.null | some x => jNat x),
         ("err", match merr with | none => Json.null | some e => Json.str e),
         ("traffic", tableJson mtab), ("over", jNat mover), ("spec", tableJson stab)]]
@@ -154,8 +163,10 @@ def handle (j : Json) (cache : Bool) : Except String Verdict := do
       | some e, some m =>
         if e != "ERR:" ++ m then agree := false
         spec := false; why := why ++ s!" crash {e};"
-        tags := tags ++ ["impl-crash"]
-      | some e, none => agree := false; spec := false; why := why ++ s!" crash {e};"; tags := tags ++ ["impl-crash"]
+        tags := tags ++ ["impl-crash", "fail:crash"]
+      | some e, none =>
+        agree := false; spec := false; why := why ++ s!" crash {e};"
+        tags := tags ++ ["impl-crash", "fail:crash"]
       | none, some _ => agree := false
       | none, none =>
         if !sameTable run.traffic mtab then agree := false
@@ -163,13 +174,14 @@ def handle (j : Json) (cache : Bool) : Except String Verdict := do
         if run.over > 0 then tags := tags ++ ["overflow"]
       if run.err.isNone then
         if !sameTable run.traffic stab then
-          spec := false; why := why ++ " traffic≠spec;"
+          spec := false; why := why ++ " traffic≠spec;"; tags := tags ++ ["fail:traffic"]
         if !boundsOk c cfgs run.traffic then
-          spec := false; why := why ++ " bounds;"
+          spec := false; why := why ++ " bounds;"; tags := tags ++ ["fail:bounds"]
         if cache then
           match prevReads with
           | some p => if readsOf run.traffic > p then
                         spec := false; why := why ++ " fills increased with capacity;"
+                        tags := tags ++ ["fail:monotone"]
           | none => pure ()
           prevReads := some (readsOf run.traffic)
           if readsOf run.traffic > c.ls * (accsT.map (fun t => distinctFirstReads [] t)).sum then
@@ -177,12 +189,18 @@ def handle (j : Json) (cache : Bool) : Except String Verdict := do
         if first.isNone then first := some run
       if cap == some 0 then tags := tags ++ ["cap0"]
       if cap.isNone then tags := tags ++ ["cap-inf"]
+    -- attribution of a deviation to the defects the model mirrors
+    if !inWorld && wrongPop then tags := tags ++ ["explained:pinned-pop-other-binding"]
+    if !inWorld && !wrongPop && tie then tags := tags ++ ["explained:stamp-tie"]
+    if !inWorld && !wrongPop && !tie then tags := tags ++ ["MODEL-NOT-SPEC"]
+    if inWorld && staleMatters then tags := tags ++ ["explained:stale-shape"]
     -- line-granularity: the jittered rerun (first capacity) must charge the same
     match jit, first with
     | some jr, some fr =>
       tags := tags ++ ["jitter"]
       if jr.err.isSome || !sameTable jr.traffic fr.traffic then
         spec := false; why := why ++ " position jitter inside a line changed the traffic;"
+        tags := tags ++ ["fail:jitter"]
     | _, _ => pure ()
     pure { agree, spec, model := jList models, tags := tags.eraseDups, why }
 
